@@ -89,6 +89,29 @@ func init() {
 				sp := c14ReservedSpec(rng, i)
 				out = append(out, drv.Scenario{Kind: "reserved", Seed: seed, Params: mustJSON(c14Params{Spec: sp}), TimeoutS: 90, Solo: sp.API})
 			}
+			// finite runs: a vBucket whose whole traffic consists of reserved-key events ends normally; the closing save of the
+			// run must not write a checkpoint for it (its position was never flagged)
+			nfin := nsess / 10
+			frng := rand.New(rand.NewSource(seed*31 + 5))
+			for i := 0; i < nfin; i++ {
+				sp := &SessSpec{NumVB: 2 + frng.Intn(4), Nodes: 1, AckSeed: frng.Int63(), Backend: []string{"mem", "cb"}[i%2], Backlog: map[int][][]ItemSpec{}, Mode: "finite", PNow: 1, Auto: true, IntervalMs: 60000}
+				o := &HistOpts{NumVB: sp.NumVB, PReserved: 0.3, MaxItems: 4}
+				ctr := 0
+				quietVB := frng.Intn(sp.NumVB)
+				for vb := 0; vb < sp.NumVB; vb++ {
+					if vb == quietVB || frng.Intn(3) == 0 {
+						var sn []ItemSpec
+						for j := 0; j < 1+frng.Intn(3); j++ {
+							sn = append(sn, ItemSpec{K: []string{"m", "d", "e"}[frng.Intn(3)], Key: []byte(reservedSamples[frng.Intn(len(reservedSamples))] + fmt.Sprint(frng.Intn(9))), Val: []byte("{}")})
+						}
+						sp.Backlog[vb] = append(sp.Backlog[vb], sn)
+						continue
+					}
+					sp.Backlog[vb] = append(sp.Backlog[vb], genSnap(frng, o, &ctr))
+				}
+				sp.Steps = []Step{{Op: "selfstopcheck", Ms: 8000}}
+				out = append(out, drv.Scenario{Kind: "reserved-finite", Seed: seed, Params: mustJSON(c14Params{Spec: sp}), TimeoutS: 90})
+			}
 			for i := 0; i < nloop; i++ {
 				lp := &c14Loop{NumVB: 2 + rng.Intn(6), IntervalMs: 4 + rng.Intn(8), UserEvents: rng.Intn(30), Seed: rng.Int63(), Membership: i%4 == 3}
 				if i%5 == 4 {
@@ -176,6 +199,37 @@ func runC14(sc drv.Scenario) drv.Result {
 		}
 		return drv.Result{Verdict: drv.Violated, Clause: "dotted", FindingKey: "C14/dotted-accepted", Nontrivial: true, TraceHash: drv.Hash("dotted-full", p.Spec.GroupName),
 			Detail: fmt.Sprintf("a client configured with group name %q (contains a dot) started and streamed; checkpoint keys written: %v", p.Spec.GroupName, wrote)}
+	case "reserved-finite":
+		tr := RunSession(p.Spec)
+		if len(tr.Checks) == 0 {
+			return drv.Result{Verdict: drv.Inconclusive, Detail: "the finite run did not stop on its own within 8 s: " + tr.StartErr}
+		}
+		var fs []Finding
+		for _, f := range OracleDelivery(tr) {
+			if f.Prop == "C03" && f.Key == "C03/list/unfiltered" {
+				fs = append(fs, Finding{"C14", "list", "C14/reserved-delivered", f.Detail})
+			}
+		}
+		st := tr.Checks[len(tr.Checks)-1].Store
+		quiet := 0
+		for vb, snaps := range p.Spec.Backlog {
+			only := true
+			for _, sn := range snaps {
+				for _, it := range sn {
+					if !reservedKey(it.Key) {
+						only = false
+					}
+				}
+			}
+			if !only {
+				continue
+			}
+			quiet++
+			if c, ok := st[vb]; ok && c[1] != 0 {
+				fs = append(fs, Finding{"C14", "flag", "C14/reserved-flagged-at-finite-end", fmt.Sprintf("vb %d received reserved-key events only and ended normally; the closing save of the finite run wrote the checkpoint (uuid %x, seqno %d, [%d,%d]) for it", vb, c[0], c[1], c[2], c[3])})
+			}
+		}
+		return sessionResult("C14", tr, fs, quiet > 0, map[string]any{"kind": "reserved-finite", "backend": p.Spec.Backend, "vbuckets": p.Spec.NumVB, "reserved_only_vbuckets": quiet, "stored": len(st)})
 	case "reserved":
 		tr := RunSession(p.Spec)
 		var fs []Finding
